@@ -60,6 +60,10 @@ class BitBuffer:
         if self._type is None or self._type.size is None:
             raise ValueError("Invalid state")
 
+        if data < 0 or data >> bits:
+            # Silently dropping the high bits would also corrupt the neighbouring fields of the unit
+            raise OverflowError(f"Value {data!r} does not fit in a bit field of {bits} bits")
+
         if self.endian == "<":
             self._buffer |= data << (self._type.size * 8 - self._remaining)
         else:
